@@ -22,6 +22,7 @@ package modfile
 import (
 	"errors"
 	"fmt"
+	"go/version"
 	"path/filepath"
 	"sort"
 	"strconv"
@@ -1634,11 +1635,11 @@ func (f *File) DropTool(path string) error {
 func (f *File) SortBlocks() {
 	f.removeDups() // otherwise sorting is unsafe
 
-	// semanticSortForExcludeVersionV is the Go version (plus leading "v") at which
+	// semanticSortForExcludeVersion is the Go language version (plus leading "go") at which
 	// lines in exclude blocks start to use semantic sort instead of lexicographic sort.
 	// See go.dev/issue/60028.
-	const semanticSortForExcludeVersionV = "v1.21"
-	useSemanticSortForExclude := f.Go != nil && semver.Compare("v"+f.Go.Version, semanticSortForExcludeVersionV) >= 0
+	const semanticSortForExcludeVersion = "go1.21"
+	useSemanticSortForExclude := f.Go != nil && version.Compare(version.Lang("go"+f.Go.Version), semanticSortForExcludeVersion) >= 0
 
 	for _, stmt := range f.Syntax.Stmt {
 		block, ok := stmt.(*LineBlock)
